@@ -69,7 +69,7 @@ def run(tier):
     vlib.build_harness()
     distinct = set()
     nprog = 0
-    for label, consts in ([] if os.environ.get("C02_ONLY") == "random" else JOBS[tier]):
+    for label, consts in ([] if os.environ.get("C02_ONLY") == "random" else JOBS[tier] + langpipe.EXT_CORE[tier]):
         reps = langpipe.generate(chk, label, consts, timeout=3000)
         if label.startswith("clo"):
             # the programs that call the closure (the others are plain arithmetic, covered by the other jobs)
